@@ -64,7 +64,7 @@ pub fn tilt_class(t: f32) -> TiltC {
 /// distance (degrees) of the tilt residue to the nearest class boundary
 pub fn tilt_boundary_distance(t: f32) -> f64 {
     let r = mod360(t);
-    [60.0, 120.0, 240.0, 300.0, 0.0, 360.0].iter().map(|b: &f64| (r - b).abs()).fold(f64::MAX, f64::min)
+    [60.0, 120.0, 240.0, 300.0].iter().map(|b: &f64| (r - b).abs()).fold(f64::MAX, f64::min)
 }
 
 /// compass sector of an azimuth measured from south, east positive
@@ -92,7 +92,7 @@ pub fn sector(az: f32) -> &'static str {
 }
 pub fn sector_boundary_distance(az: f32) -> f64 {
     let r = mod360(az);
-    [18.0, 69.0, 120.0, 157.5, 202.5, 240.0, 291.0, 342.0, 0.0, 360.0].iter().map(|b: &f64| (r - b).abs()).fold(f64::MAX, f64::min)
+    [18.0, 69.0, 120.0, 157.5, 202.5, 240.0, 291.0, 342.0].iter().map(|b: &f64| (r - b).abs()).fold(f64::MAX, f64::min)
 }
 
 pub fn r2(v: f64) -> f64 {
